@@ -4,6 +4,7 @@ import (
 	"fmt"
 	"math"
 	"net"
+	"reflect"
 
 	"github.com/xiam/to"
 )
@@ -135,7 +136,7 @@ func (c *Characteristic) updateValue(value interface{}, conn net.Conn, checkPerm
 		value = c.clampInt(value.(int))
 	}
 
-	if c.Value == value && !c.updateOnSameValue {
+	if sameValue(c.Value, value) && !c.updateOnSameValue {
 		return
 	}
 
@@ -154,6 +155,16 @@ func (c *Characteristic) updateValue(value interface{}, conn net.Conn, checkPerm
 	} else {
 		c.onValueUpdate(c.valueChangeFuncs, value, old)
 	}
+}
+
+// sameValue returns true when a and b are equal. A characteristic without a format stores values as they
+// are, also slices and maps (e.g. a JSON array which was sent by a controller): they can't be compared with ==.
+func sameValue(a, b interface{}) bool {
+	if (a != nil && !reflect.TypeOf(a).Comparable()) || (b != nil && !reflect.TypeOf(b).Comparable()) {
+		return reflect.DeepEqual(a, b)
+	}
+
+	return a == b
 }
 
 func (c *Characteristic) onValueUpdate(funcs []ChangeFunc, newValue, oldValue interface{}) {
